@@ -1,6 +1,6 @@
 (** C02: -inline and -switch never change what the generated parser accepts or records. *)
 From PegV Require Import Base.Tac Spec.Syntax Spec.Peg Spec.WF Model.Machine Model.SkipCheck Model.Optimize Model.Gen
-  Model.Analyses Model.Emit Model.SEmit Model.Exec Proofs.FirstSound Proofs.OptSound Proofs.OptSwok Proofs.Top Proofs.OptTop Proofs.SEmitFile Proofs.SEmitOpt Proofs.EmitUse Proofs.DeepDefault Proofs.OptClosed Properties.Example.
+  Model.Analyses Model.Emit Model.SEmit Model.Exec Proofs.FirstSound Proofs.OptSound Proofs.OptSwok Proofs.Top Proofs.OptTop Proofs.SEmitFile Proofs.SEmitOpt Proofs.EmitUse Proofs.DeepDefault Proofs.OptClosed Proofs.ParseTop Properties.Example.
 Local Open Scope nat_scope.
 
 (** For one grammar term [g] (the tree the generator compiles), every combination of the memo and
@@ -84,6 +84,24 @@ Theorem C02_generated_code_switch_unconditional :
         end.
 Proof. exact generated_code_switch_all_options. Qed.
 Print Assumptions C02_generated_code_switch_unconditional.
+
+(** ... and so the parsers generated under ANY two option combinations - memo table on or off, -inline on or off,
+    -switch on or off ([tree_of sw g]) - agree at the level of the statements peg writes: whatever the two entry
+    functions return, from any two earlier states, is the same verdict and, on success, the same offset and the same
+    token list.  No side condition beyond the grammar's well-formedness (Proofs/ParseTop.v). *)
+Theorem C02_generated_parsers_agree :
+  forall g tab rank, wf_b g tab rank = true -> good_grammar g ->
+  (forall r b, nth_error g r = Some (RBody b) -> ranges_ok b = true) ->
+  grammar_alt2 g -> closed_names g ->
+  forall ptx buf penv, good_buf buf -> valid_buf buf ->
+  forall memo1 inline1 sw1 memo2 inline2 sw2 rb st1 st2,
+    nth_error g 0 = Some rb -> rb <> RNil ->
+    forall out1 out2,
+      xcall buf penv (mk_opts true memo1 inline1 (tree_of sw1 g)) (gen_fn (tree_of sw1 g) ptx inline1) 0 (reset st1) out1 ->
+      xcall buf penv (mk_opts true memo2 inline2 (tree_of sw2 g)) (gen_fn (tree_of sw2 g) ptx inline2) 0 (reset st2) out2 ->
+      exists b s1 s2, out1 = Ret b s1 /\ out2 = Ret b s2 /\ (b = true -> pos s1 = pos s2 /\ Machine.live s1 = Machine.live s2).
+Proof. exact generated_parsers_agree. Qed.
+Print Assumptions C02_generated_parsers_agree.
 
 (** the pass keeps the references of a tree defined *)
 Theorem C02_switch_keeps_references_defined :
